@@ -165,6 +165,12 @@ class C15(core.Check):
         bases = [b for b in basefiles.small_set(ctx["zh"], self.work, self.seed + 1000, n_chunks=(3, 6), piece=(150, 900)) if b["cfg"]["comp"] == 2]
         if len(bases) < 4:
             raise RuntimeError("no zstd base files")
+        # another encoder's frames: several zstd frames per chunk, frames without the content-size field (the reference writer's files)
+        for rb_ in basefiles.ref_set(self.seed + 1000, 14 if self.quick else 28):
+            if ("-frames" in rb_["name"] or "-nocontentsize" in rb_["name"]) and zckref.parse(rb_["data"]).comp_type == 2:
+                rb_["cfg"] = {"comp": 2}
+                bases.append(rb_)
+                self.count("base_files_with_foreign_zstd_frames", 1)
         self.count("base_files", len(bases))
         out = []
         # big chunks (manual chunking; the automatic chunker never exceeds 128 KiB): an implementation that treats large chunks
